@@ -317,9 +317,12 @@ pub fn run_case(rep: &mut Report, seed: u64, case: u64, verbose: bool) -> u64 {
         }
         let _ = phase;
     }
+    // Counted separately: the distinct-nontrivial floor of the run is about the
+    // ObservationService lane only.
     if n >= 2 {
+        lane.rep.count("wasm_cases_with_two_or_more_commits", 1);
         lane.rep
-            .nontrivial_hash(h64(format!("wasm:{:?}", log).as_bytes()));
+            .observe("wasm_history_digests_sample", &format!("{:016x}", h64(format!("{log:?}").as_bytes())));
     }
     lane.divergences
 }
@@ -338,7 +341,6 @@ pub fn run(rep: &mut Report, args: &Args, parent: &Budget) {
     verif_core::run_shards(rep, args.jobs, n_shards, |shard, rep| {
         let mut case = shard as u64;
         while !budget.expired() && case < max_cases {
-            rep.eval();
             run_case(rep, seed, case, false);
             rep.count("wasm_cases", 1);
             case += n_shards as u64;
